@@ -532,6 +532,17 @@ def dated_case(ctx, job, idx, rng, st):
 STEP_FOR_ORDER = {2: 0.03, 3: 1.0, 4: 6.0, 5: 15.0, 6: 30.0, 7: 45.0, 8: 60.0, 9: 75.0, 10: 90.0, 11: 100.0, 12: 120.0}
 
 
+def deriv_bound(a, e, n, k):
+    """Bound of |d^k r / dt^k| of elliptic motion from the Fourier series in the mean anomaly:
+    x/a = -3e/2 + sum (2/m) J'_m(me) cos mM,  y/a = sqrt(1-e^2) sum (2/(me)) J_m(me) sin mM  with
+    |J_m(me)| <= (me/2)^m / m!  =>  harmonic m has amplitude <= 2 (me/2)^(m-1) / m! in both coordinates, its
+    k-th derivative m^k n^k times that.  (For e -> 0 this is a n^k; at e = 0.05, k = 12 it is ~800 a n^k.)"""
+    total = 0.0
+    for m in range(1, 60):
+        total += m ** k * (m * e / 2) ** (m - 1) / math.factorial(m)
+    return 2 * math.sqrt(2) * a * n ** k * total
+
+
 def kepler_case(ctx, job, idx, rng, st):
     """Smooth orbit: |interpolated position - true position| in every interval."""
     from beyond.dates import Date
@@ -572,8 +583,7 @@ def kepler_case(ctx, job, idx, rng, st):
     rp = a * (1 - e)
     w = math.sqrt(MU * (1 + e) / rp ** 3)  # angular rate at pericentre
     vmax = w * rp
-    # |d^k r / dt^k| <= 3 a (1+e) w^k for e <= 0.05 (circular motion: r n^k; the factor 3 and w >= n cover the eccentricity)
-    dk = 3 * a * (1 + e) * w ** k
+    dk = deriv_bound(a, e, math.sqrt(MU / a ** 3), k)
     edge = (k + 1) // 2
     for i in range(n - 1):
         is_end = i < edge or i >= n - 1 - edge
